@@ -118,6 +118,7 @@ MUTATORS = {'append', 'extend', 'insert', 'pop', 'remove', 'clear', 'sort', 'rev
             'send', 'throw', 'close'}
 
 
+EMITTED_PREFIXES = ['_try_', '_parse_', '_raise_error']      # routes adds the helper prefix read off the generator
 ANCHORS = {'_run', 'visit', 'traverse', 'transform', '_transform', '_finalize_parse_info', '_extract_excerpt',
            '_get_line_and_column', '_map_index_to_line_and_column', '_caret_at', '_hash', 'parse',
            '_wrap_string_literal', '_wrap_byte_literal'}
@@ -141,7 +142,7 @@ def set_module(tree):
             RECORD_SIGS[n.targets[0].id] = fields
     for n in tree.body:
         if isinstance(n, ast.FunctionDef) and n.name not in ANCHORS and not n.name.startswith(
-                ('_try_', '_parse_', '_raise_error')) and len(list(ast.walk(n))) < 400:
+                tuple(EMITTED_PREFIXES)) and len(list(ast.walk(n))) < 400:
             MODULE_HELPERS[n.name] = n
 
 
